@@ -1,6 +1,6 @@
 CONSTANTS
   MaxSeq = 8
-  CovDen = 4
+  CovDen = 3
   Lip = "2"
   Fs <- FsQuick
   Thresholds <- ThrQuick
